@@ -13,6 +13,7 @@ import (
 	"github.com/ozanh/ugo"
 	ujson "github.com/ozanh/ugo/stdlib/json"
 	ustrings "github.com/ozanh/ugo/stdlib/strings"
+	utime "github.com/ozanh/ugo/stdlib/time"
 
 	"verif/internal/bcv"
 	"verif/internal/fw"
@@ -47,6 +48,7 @@ func moduleMap() *ugo.ModuleMap {
 	mm.AddBuiltinModule("bm", map[string]ugo.Object{"x": ugo.Int(1), "arr": ugo.Array{ugo.Int(1)}})
 	mm.AddBuiltinModule("json", ujson.Module)
 	mm.AddBuiltinModule("strings", ustrings.Module)
+	mm.AddBuiltinModule("time", utime.Module)
 	return mm
 }
 
@@ -80,6 +82,9 @@ var scripts = []script{
 	// reach a later run
 	{"json-marshal-fails-midway", pre + "json := import(\"json\"); a := [1, \"partial output\", 2]; a[2] = a; r := json.Marshal(a); m := {k: [1, 2, func() {}]}; return [isError(r), isError(json.Marshal(m)), isError(json.MarshalIndent(a, \"\", \" \"))]", nil},
 	{"strings-callback-fails-midway", pre + "strings := import(\"strings\"); z := 0; try { strings.Map(func(c) { if c == 'c' { return 1 / z }; return c }, \"abcd\") } catch e { L(31) }; return strings.Repeat(\"ab\", 3)", nil},
+	// values derived from the process-wide sentinels and caches of the Go side
+	{"error-new-on-caught-builtin-error", pre + "z := 0; r := []; try { 1 / z } catch e { r = append(r, string(e.New(\"custom text\"))) }; try { throw TypeError } catch e { r = append(r, string(e.New(\"other text\"))) }; return r", nil},
+	{"time-unknown-location", pre + "time := import(\"time\"); r := time.LoadLocation(\"No/Such_Zone\"); return [isError(r), isError(time.LoadLocation(\"No/Such_Zone\")), string(time.LoadLocation(\"UTC\"))]", nil},
 	{"nested-try-return", pre + "f := func() { for i := 0; i < 3; i++ { try { try { if i == 1 { continue }; if i == 2 { return i } } finally { L(i) } } finally { L(10 + i) } }; return -1 }; return f()", nil},
 }
 
@@ -95,6 +100,8 @@ var probes = []script{
 	{"probe-callback", pre + "g := func(x) { return x * 2 }; return [CB(g, 4), CB(g, 5)]", nil},
 	{"probe-json", pre + "json := import(\"json\"); return [string(json.Marshal([1, {a: \"x\"}, [2]])), string(json.MarshalIndent({b: [true]}, \"\", \" \")), string(json.Unmarshal(\"[1, 2]\"))]", nil},
 	{"probe-strings", pre + "strings := import(\"strings\"); return [strings.Map(func(c) { return c + 1 }, \"abc\"), strings.Join([\"a\", \"b\"], \"-\"), strings.Title(\"xy z\")]", nil},
+	{"probe-builtin-errors", pre + "z := 0; r := [string(ZeroDivisionError), string(TypeError)]; try { 1 / z } catch e { r = append(r, string(e), e.Message) }; try { throw TypeError } catch e { r = append(r, string(e)) }; return r", nil},
+	{"probe-time-locations", pre + "time := import(\"time\"); return [isError(time.LoadLocation(\"No/Such_Zone\")), isError(time.LoadLocation(\"Also/Unknown\")), string(time.LoadLocation(\"UTC\"))]", nil},
 	{"probe-params", pre + "param (a, ...b); return [a, b]", nil},
 }
 
